@@ -88,6 +88,13 @@ class ASGIStreamTransport(httpx.AsyncBaseTransport):
     async def handle_async_request(self, request: httpx.Request) -> httpx.Response:
         body = await request.aread()
         self.requests.append((request.method, str(request.url), dict(request.headers)))
+        if self.is_stream(request) and self.plan.cuts and self.plan.cuts[0] == -1:
+            # a cut of -1 means: this connection attempt is refused before any response
+            self.plan.cuts.pop(0)
+            self.plan.conn += 1
+            self.plan.dropped += 1
+            self.plan.refused = getattr(self.plan, "refused", 0) + 1
+            raise httpx.ConnectError("injected connection refusal")
         scope = {
             "type": "http", "asgi": {"version": "3.0"}, "http_version": "1.1", "method": request.method,
             "headers": [(k.lower(), v) for k, v in request.headers.raw], "scheme": "http",
